@@ -167,8 +167,11 @@ fn run_scenario(ctx: &Ctx, cons: &ckb_chain_spec::consensus::Consensus, m: &Mate
         // the service thread waits here until the verifier is done with the leader (if the leader
         // is a stored block that has no verdict yet)
         let shared = node.shared.clone();
-        ckb_chain::verif::set_gate(Some(Box::new(move |_point, leader| {
+        ckb_chain::verif::set_gate(Some(Box::new(move |point, leader| {
             use ckb_store::ChainStore;
+            if point != "search_orphan_leader:between-reads" {
+                return;
+            }
             let t = std::time::Instant::now();
             while t.elapsed() < std::time::Duration::from_millis(200) {
                 let store = shared.store();
